@@ -227,6 +227,7 @@ def grammar_stream(rnd, want_lr1=0.7, max_states=160):
         if len(g.rules) > 16 or len(g.nts) > 7 or len(g.terms) > 8: continue
         tb = ref_lr1.build(g)
         if len(tb.states) > max_states: continue
+        if ref_lr1.beyond_default_cap(g, tb): continue     # rejected with default limits (finding D16): C12's own witnesses cover it
         if tb.lr1:
             if len(pool_lr1) < 400: pool_lr1.append(g)
             else: pool_lr1[rnd.randrange(len(pool_lr1))] = g
